@@ -1230,6 +1230,60 @@ def goa_histories(prs, table, rng):
 
 
 # ============================================================================== the check
+def foreign_reads(ck, rng, quick, containers):
+    stats = {"properties": 0, "pre_states": 0, "reads": 0, "getter_raised": 0, "unavailable": None}
+    try:
+        import checks.c09 as c9
+        xsd = c9.Xsd()
+        if not xsd.validators:
+            raise RuntimeError("the XSDs of /repo/spec did not compile")
+        kinds = c9.make_kinds(rng)
+    except Exception as e:  # noqa
+        stats["unavailable"] = repr(e)[:200]
+        return stats
+    for k in kinds:
+        if k.anchor is None:
+            continue
+        for p in k.props:
+            try:
+                akeys, elems = c9.observed_keys(k, p)
+                eds = c9.foreign_edits(xsd, k, p, akeys, elems, rng, quick)
+                plan = c9.select_edits(eds, rng, quick, cap=6 if quick else 14)
+            except Exception:  # noqa
+                continue
+            if not plan:
+                continue
+            stats["properties"] += 1
+            for desc, edits in plan:
+                try:
+                    prs, ok = c9.prepared(xsd, k, edits)
+                    if not ok:
+                        continue
+                    obj = k.nav(prs)
+                    part = c9.part_of(k, prs, obj)
+                    if part is None:
+                        continue
+                except Exception:  # noqa
+                    continue
+                stats["pre_states"] += 1
+                before = py_strip(pytree(part._element), containers)
+                try:
+                    for _ in range(2):
+                        getattr(obj, p.attr)
+                    stats["reads"] += 1
+                except Exception:  # noqa  (a getter that raises in a foreign state is not this property's business)
+                    stats["getter_raised"] += 1
+                after = py_strip(pytree(part._element), containers)
+                ck.count(("foreign-read", k.name, p.attr, desc), True, "foreign-read")
+                if before != after:
+                    ck.violation("foreign-read:%s.%s" % (p.cls, p.attr),
+                                 "reading %s.%s changed the document when the object is in a state only other producers write (%s): %s" % (
+                                     p.cls, p.attr, desc, str(tree_delta(before, after))[:400]),
+                                 {"entry_point": "%s.%s (getter)" % (p.cls, p.attr), "input": {"kind": k.name, "pre_state": [list(e) for e in edits], "what": desc},
+                                  "impl_outcome": str(tree_delta(before, after))[:800]})
+    return stats
+
+
 def diag_rows():
     rc, out = _run(["timeout", "600", "coqc", "-Q", ".", "V", "diag/Diag_C12.v"], cwd=COQ)
     if rc != 0:
@@ -1472,6 +1526,11 @@ def run(ck, tier, rng):
                              {"theorem_or_correspondence": "correspondence Access.v (strip, goa_children at a path, Save) ~ lxml / "
                               "oxml/xmlchemy.py on real part trees", "input": {"deck": exp[1], "case": str(exp[2])[:300]},
                               "model_outcome": mo[:300], "impl_outcome": str(exp[3])[:300]}, concrete=False)
+    # ---- reads from FOREIGN pre-states: the corpus cannot hold every schema-valid state an accessor may meet.  For every
+    #      property of the C09 catalogue kinds (the plain-data accessors that have a setter) the object is put into the
+    #      schema-derived pre-states of checks/c09.py (every enumeration value / optional sibling / choice member of what
+    #      the property touches, validated) and the property is READ: the part must not change except by empty containers.
+    fstats = foreign_reads(ck, rng, tier == "quick", set(meta["containers"]))
     for f in list(reported)[:3]:
         ck.sample({"finding": f})
     for res in results[:4]:
@@ -1497,7 +1556,7 @@ def run(ck, tier, rng):
                "unresolved_observed_pure": sorted(set(observed_pure)),
                "unresolved_rows": sorted({"%s.%s: %s" % (r["cls"], r["name"], r["unres"][0][:90]) for r in meta["rows"] if r["unres"]}),
                "gateway_effects_observed": dict(sorted(gate.items())),
-               "prediction_mismatches": n_mismatch, "deck_level_differences": n_deckdiff,
+               "prediction_mismatches": n_mismatch, "deck_level_differences": n_deckdiff, "foreign_pre_state_reads": fstats,
                "traversals": trav, "traversal_evaluations": trav_calls, "intermediate_saves": saves,
                "strip_correspondence_cases": len([1 for e in model_expect if e[0] == "strip"]), "xmlchemy_histories": n_goa,
                "correspondence_diffs": diffs, "rt_hints": meta.get("rt_hints", {}), "exhaustive": False},
@@ -1541,7 +1600,8 @@ def replay(rec):
 CLAIM = {
     "tech": "Coq proof over a Gallina model of XML trees, strip and accessor effects (all trees, positions, orders, repetitions, "
             "saves) + instance theorem by vm_compute over an effect table regenerated from /repo each run by a static call-graph "
-            "analysis + dynamic observation of every accessor on every deck + ZIP-level deck comparison + extracted-model "
+            "analysis + dynamic observation of every accessor on every deck + reads of every settable plain-data property from "
+            "schema-derived foreign pre-states (states only other producers write) + ZIP-level deck comparison + extracted-model "
             "correspondence of strip / get_or_add on real part trees",
     "text": "Generic theorems (closed under the global context): an attribute-less, child-less element of a container tag added "
             "anywhere in any tree is invisible under strip (C12_get_or_add_strip, C12_add_anywhere_strip); any list of accessor "
